@@ -206,7 +206,8 @@ class LazyPreMap(collections.abc.MutableMapping):
             if e[0] == k:
                 return e
         present, value = self.pre(k)
-        e = [k, present, value]
+        # e[3], e[4]: the content as first materialised (for "unchanged" checks)
+        e = [k, present, value, present, value.bits() if isinstance(value, Inner) else value]
         self.ent.append(e)
         return e
 
